@@ -19,7 +19,7 @@ RULE = ("Hypothesis-generated documents (seeded) mixing plaintext scalars "
         "inside lists, plain / double-quoted / folded / literal styles "
         "(folded and literal values carry line breaks and indentation "
         "before and inside the marker), plaintexts with leading blanks, "
-        "inner newlines, punctuation; files without any secret; runs over "
+        "inner newlines (LF, CR LF and lone CR), punctuation; files without any secret; runs over "
         "one or two files that reuse anchor names - produced with a "
         "stand-in eyaml executable implementing a keyed reversible cipher "
         "over the same command line. After eyaml-rotate-keys exits 0: every "
@@ -46,7 +46,9 @@ OLD = ("old public key\n", "old private key\n")
 NEW = ("new public key\n", "new private key\n")
 PLAINTEXTS = ["s3cret", "p@ss w0rd!", "  leading blanks", "line one\nline two",
               "x", "a: b # not yaml", "0", "\ttabbed start", "ends with ]",
-              "long " * 30 + "tail", "'quoted'", "{\"json\": true}"]
+              "long " * 30 + "tail", "'quoted'", "{\"json\": true}",
+              "dos line\r\nsecond line", "lone\rcarriage return",
+              "-----BEGIN KEY-----\r\nAAAA\r\nBBBB\r\n-----END KEY-----"]
 FAKE = os.path.join(os.path.dirname(os.path.dirname(os.path.abspath(
     __file__))), "tools", "fake_eyaml.py")
 
